@@ -190,6 +190,37 @@ func c13Units(r *vlib.Run, crashed map[string]string) []cgenSeed {
 		out = append(out, cgenSeedsSel(ct, k, 4096, !r.Thorough())...)
 		out = append(out, c13CompactTails(ct)...)
 	}
+	// decoder-side context: the ImportSpec family under a HashSegmentMap that contains the tree roots
+	// of the inputs, and under one that contains other roots (the plain entries above use an empty
+	// map); seeds are encoded and re-encoded with the same map. All one-deviation seeds, and one
+	// structurally complete value each with every byte value at every position.
+	for _, variant := range []string{"hsm=roots", "hsm=other"} {
+		for _, n := range []string{"ImportSpec", "WorkItem", "WorkPackage", "WorkPackageBundle"} {
+			vt := cgenVariants[variant][cgenByName["types."+n].T]
+			out = append(out, cgenSeedsSel(vt, 1, 4096, false)...)
+			out = append(out, c13Complete(vt)...)
+		}
+	}
+	for _, n := range []string{"ImportSpec", "WorkItem", "WorkPackage"} {
+		out = append(out, c13Complete(cgenByName["types."+n])...)
+	}
+	return out
+}
+
+// c13Complete: the structurally complete value of ct (every list one element, …) with every byte
+// value 0..255 at every position, in 192-position units.
+func c13Complete(ct *cgenType) []cgenSeed {
+	devs := cgenComplete(ct.T, nil, ct.Ctx)
+	v, _ := cgenBuild(ct.T, devs, ct.Ctx)
+	var enc []byte
+	var err error
+	if p, _, _ := vlib.Guard(func() { enc, err = ct.Enc(v.Addr()) }); p || err != nil || len(enc) > 4096 {
+		return nil
+	}
+	var out []cgenSeed
+	for from := 0; from <= len(enc); from += 192 {
+		out = append(out, cgenSeed{ct: ct, devs: devs, enc: enc, structural: true, fullLattice: true, posFrom: from, posTo: from + 192})
+	}
 	return out
 }
 
